@@ -325,6 +325,37 @@ func CheckC17(env *core.Env, rep *core.Report) *core.Result {
 		}
 	})
 
+	// a long chain and a deep walk: 10 files each importing the next (in ever deeper directories), and a
+	// start file that imports the first and the last of them: everything reachable is loaded, however
+	// deep the walk goes
+	{
+		root := env.Sub("chain")
+		const nf = 10
+		dirOf := func(k int) string { return filepath.Join(root, strings.Repeat("d/", k)) }
+		for k := 1; k <= nf; k++ {
+			_ = os.MkdirAll(dirOf(k), 0o755)
+			body := fmt.Sprintf("tasks:\n  t%d:\n    command: [\"echo t%d\"]\n", k, k)
+			if k < nf {
+				body = fmt.Sprintf("import:\n  - d/c%d.yaml\n", k+1) + body
+			}
+			_ = ioutil.WriteFile(filepath.Join(dirOf(k), fmt.Sprintf("c%d.yaml", k)), []byte(body), 0o644)
+		}
+		start := filepath.Join(root, "start.yaml")
+		_ = ioutil.WriteFile(start, []byte(fmt.Sprintf("import:\n  - d/c1.yaml\n  - %sc%d.yaml\ntasks:\n  t0:\n    command: [\"echo t0\"]\n", strings.Repeat("d/", nf), nf)), 0o644)
+		res := e.run(root, "", 10*time.Second, "-c", start, "list", "tasks")
+		atomic.AddInt64(&n, 1)
+		got := taskNamesIn(res.Stdout)
+		sort.Strings(got)
+		var want []string
+		for k := 0; k <= nf; k++ {
+			want = append(want, fmt.Sprintf("t%d", k))
+		}
+		sort.Strings(want)
+		if res.Exit != 0 || strings.Join(got, ",") != strings.Join(want, ",") {
+			rep.Add(core.Finding{Prop: "C17", Key: "C17:imports:long-chain-not-loaded-completely", What: fmt.Sprintf("a chain of %d files, each importing the next: exit %d, loaded tasks %v, expected %v: %s", nf, res.Exit, got, want, lastLine(res.Stderr)),
+				Detail: map[string]interface{}{"stdout": res.Stdout, "stderr": tailS(res.Stderr, 400)}})
+		}
+	}
 	// global configuration: every split of four definitions between $HOME/.taskctl/config.yaml and the project
 	defs := []string{"task tg", "task tp", "context cg", "variable vg"}
 	for mask := 0; mask < 16; mask++ {
